@@ -134,6 +134,11 @@ impl<'a, 'b> Generator<'a, 'b> {
                 IR::Neg(t, a) => ii!(self, t, "(-{})", a),
 
                 IR::Str(t, s) => iis!(self, t, "\"{}\"", escape_lua_string(s)),
+                // A literal beyond the range of a float is read as infinity, which has no numeral
+                // in Lua (`inf` would be a read of an unset global).
+                IR::Float(t, f) if f.is_infinite() => {
+                    iis!(self, t, "{}", if *f > 0.0 { "(1/0)" } else { "(-1/0)" })
+                }
                 IR::Float(t, f) => iis!(self, t, "{:?}", f),
 
                 IR::Equals(t, a, b) => ii!(self, t, "({} == {})", a, b),
